@@ -5,6 +5,35 @@
 
 namespace drv {
 
+// a user layout whose mapping is an EMPTY class: row-major over all-static extents, nothing stored (under the [[no_unique_address]] emulation the
+// library's own mappings are never empty - they hold an extents object - so only such a mapping reaches the pair specialisations for an empty first member)
+struct layout_static_right {
+  template <class E> class mapping {
+    static_assert(E::rank_dynamic() == 0, "all-static extents only");
+  public:
+    using extents_type = E; using index_type = typename E::index_type; using size_type = typename E::size_type;
+    using rank_type = typename E::rank_type; using layout_type = layout_static_right;
+    constexpr mapping() noexcept = default;
+    constexpr mapping(const E &) noexcept {}
+    template <class OE, class = std::enable_if_t<std::is_constructible<E, OE>::value>> constexpr mapping(const mapping<OE> &) noexcept {}
+    const E &extents() const noexcept { static const E e{}; return e; }
+    template <class... I, class = std::enable_if_t<sizeof...(I) == E::rank()>> constexpr index_type operator()(I... i) const noexcept {
+      const index_type ix[sizeof...(I) + 1] = {static_cast<index_type>(i)..., 0};
+      index_type off = 0; for (size_t r = 0; r < E::rank(); ++r) off = off * static_cast<index_type>(E::static_extent(r)) + ix[r];
+      return off;
+    }
+    constexpr index_type required_span_size() const noexcept { index_type p = 1; for (size_t r = 0; r < E::rank(); ++r) p *= static_cast<index_type>(E::static_extent(r)); return p; }
+    static constexpr bool is_always_unique() noexcept { return true; }
+    static constexpr bool is_always_exhaustive() noexcept { return true; }
+    static constexpr bool is_always_strided() noexcept { return true; }
+    static constexpr bool is_unique() noexcept { return true; }
+    static constexpr bool is_exhaustive() noexcept { return true; }
+    static constexpr bool is_strided() noexcept { return true; }
+    constexpr index_type stride(rank_type r) const noexcept { index_type p = 1; for (size_t q = E::rank(); q > r + 1; --q) p *= static_cast<index_type>(E::static_extent(q - 1)); return p; }
+    template <class OE> friend bool operator==(const mapping &a, const mapping<OE> &b) noexcept { return a.extents() == b.extents(); }
+  };
+};
+
 template <class T> long long handle_off(T *p, const int *base) { return (long long)(p - base); }
 template <class T> long long handle_off(handle_t<T> h, const int *base) { return (long long)(h.p - base); }
 template <class A> long long acc_id(const A &) { return 0; }
